@@ -434,6 +434,24 @@ func (x *Exec) quantifier(st *State, e *ast.CallExpr, universal bool) Val {
 	}
 	pn := fl.Type.Params.List[0].Names[0]
 	obj := x.info.Defs[pn]
+	// small constant ranges are expanded (no quantifier reaches the solver)
+	if lo.IsLit() && hi.IsLit() {
+		l, h := lo.SignedVal().Int64(), hi.SignedVal().Int64()
+		if h-l <= 64 {
+			var parts []*Term
+			for i := l; i < h; i++ {
+				qs := st.clone()
+				qs.vars[obj] = Val{Typ: types.Typ[types.Int], T: x.idxLit(i)}
+				x.inQuant++
+				parts = append(parts, x.expr(qs, ret.Results[0]).T)
+				x.inQuant--
+			}
+			if universal {
+				return Val{Typ: types.Typ[types.Bool], T: c.And(parts...)}
+			}
+			return Val{Typ: types.Typ[types.Bool], T: c.Or(parts...)}
+		}
+	}
 	bv := c.Bound(pn.Name, x.idxSort())
 	qs := st.clone()
 	qs.vars[obj] = Val{Typ: types.Typ[types.Int], T: bv}
@@ -479,7 +497,9 @@ func (x *Exec) callContract(st *State, con *Contract, recv *Val, args []Val, e *
 		}
 	}
 	if con.Ints != x.mode && !x.specMode {
-		x.fail("call from %s (%s mode) to %s (%s mode): contracts must be in the same integer mode", x.key, x.mode, con.Key, con.Ints)
+		if why := x.eng.prog.modeDependent(con); why != "" {
+			x.fail("call from %s (%s mode) to %s (%s mode): the callee's contract is not mode-independent (%s)", x.key, x.mode, con.Key, con.Ints, why)
+		}
 	}
 	x.bindParams(st, sig, recv, args)
 	// preconditions
@@ -1003,4 +1023,93 @@ func (x *Exec) scanModClause(ms *modSet, mc *Clause) {
 	sub := x.scanMods(&ast.AssignStmt{Lhs: []ast.Expr{e}, Tok: token.ASSIGN, Rhs: []ast.Expr{e}})
 	sub.vars = map[types.Object]bool{}
 	ms.merge(sub)
+}
+
+// modeDependent: a contract may be used from a caller in the other integer mode only if its clauses
+// mean the same over machine integers and over mathematical integers: no arithmetic, bit operation,
+// shift, negation or integer conversion anywhere in the clauses or in the spec functions they call.
+func (p *Program) modeDependent(con *Contract) string {
+	seen := map[string]bool{}
+	var checkNode func(n ast.Node, info *types.Info) string
+	checkNode = func(n ast.Node, info *types.Info) string {
+		why := ""
+		ast.Inspect(n, func(n ast.Node) bool {
+			if why != "" {
+				return false
+			}
+			switch e := n.(type) {
+			case *ast.BinaryExpr:
+				switch e.Op {
+				case token.ADD, token.SUB, token.MUL, token.QUO, token.REM, token.AND, token.OR, token.XOR, token.SHL, token.SHR, token.AND_NOT:
+					if tv, ok := info.Types[e]; ok && tv.Value != nil {
+						return false // constant expression
+					}
+					if tv, ok := info.Types[e]; ok && isString(tv.Type) {
+						return true
+					}
+					why = "operator " + e.Op.String() + " in " + types.ExprString(e)
+				}
+			case *ast.UnaryExpr:
+				if e.Op == token.SUB || e.Op == token.XOR {
+					if tv, ok := info.Types[e]; ok && tv.Value != nil {
+						return false
+					}
+					why = "operator " + e.Op.String()
+				}
+			case *ast.IncDecStmt:
+				why = "increment"
+			case *ast.AssignStmt:
+				if e.Tok != token.ASSIGN && e.Tok != token.DEFINE {
+					why = "operator " + e.Tok.String()
+				}
+			case *ast.CallExpr:
+				if tv, ok := info.Types[e.Fun]; ok && tv.IsType() {
+					if _, _, isInt := intInfo(tv.Type); isInt {
+						if atv, ok := info.Types[e.Args[0]]; ok && atv.Value == nil {
+							why = "integer conversion " + types.ExprString(e)
+						}
+					}
+					return true
+				}
+				var fn *types.Func
+				switch f := ast.Unparen(e.Fun).(type) {
+				case *ast.Ident:
+					fn, _ = info.Uses[f].(*types.Func)
+				case *ast.SelectorExpr:
+					fn, _ = info.Uses[f.Sel].(*types.Func)
+				}
+				if fn != nil && fn.Pkg() != nil {
+					key := fnKey(fn)
+					if seen[key] {
+						return true
+					}
+					seen[key] = true
+					switch fn.Name() {
+					case "forall", "exists", "all", "elems":
+						return true
+					}
+					if d := p.Decls[key]; d != nil && d.Body != nil {
+						pos := p.Fset.Position(fn.Pos())
+						if filepath.Base(pos.Filename) == "verif_contracts.go" {
+							if w := checkNode(d.Body, p.DeclPkg[key].TypesInfo); w != "" {
+								why = "spec function " + fn.Name() + ": " + w
+							}
+						}
+					}
+				}
+			}
+			return true
+		})
+		return why
+	}
+	var all []*Clause
+	all = append(all, con.Requires...)
+	all = append(all, con.Ensures...)
+	all = append(all, con.Modifies...)
+	for _, cl := range all {
+		if w := checkNode(cl.Expr, cl.Info); w != "" {
+			return cl.Name + ": " + w
+		}
+	}
+	return ""
 }
